@@ -129,17 +129,21 @@ ConfAfterUnconfirm(cf) == [r \in Roles |-> IF r \in Stale(cf) THEN None ELSE cf[
 
 \* chain::Confirm::best_block_updated -- "Must be called whenever a new chain tip becomes
 \* available. May be skipped for intermediary blocks."  The header is always one of the best chain.
-\* Moving to a block that does not extend the last one announces a reorganisation (this is how
-\* eight of the repo's eleven ConnectStyles deliver disconnections); everything the object was told
-\* above that height is thereby retracted.  A transaction confirmed in a block that left the chain
-\* at or below the new height must have been un-confirmed before (the client learns about those
-\* from get_relevant_txids; lightning-transaction-sync un-confirms before it updates the tip).
+\* On the same chain the tip only moves forward.  Announcing a block that does not extend the last
+\* one announces a reorganisation (this is how eight of the repo's eleven ConnectStyles deliver
+\* disconnections); it is never below the fork point, and everything the object was told above that
+\* height on the old branch is thereby retracted.  A transaction confirmed in a block that left the
+\* chain at or below the new height must have been un-confirmed before (the client learns about
+\* those from get_relevant_txids; lightning-transaction-sync un-confirms before it updates the tip).
+\* The announced tip is never below a block of this chain whose transactions were already given
+\* (transactions may precede the tip update of their block, not the tip update of an earlier one).
 CanBest(tp, cf, ifc, b) ==
   /\ ifc \in {"none", "confirm"}
   /\ b \in Blocks /\ Anc(b, target)
   /\ b # tp
-  /\ Anc(tp, target) => Anc(tp, b)          \* on the same chain the tip only moves forward
+  /\ IF Anc(tp, target) THEN Anc(tp, b) ELSE Anc(LCA(tp, target), b)
   /\ \A r \in Stale(cf) : Height(cf[r]) > Height(b)
+  /\ \A r \in Roles : (cf[r] # None /\ Anc(cf[r], target)) => Height(cf[r]) <= Height(b)
 ConfAfterBest(tp, cf, b) == IF Anc(tp, b) THEN cf ELSE ConfAfterRewind(cf, b)
 
 \* The object has been told everything about the best chain.
